@@ -46,3 +46,45 @@ Definition k_assign_spec (shapes : list shape) (inits : list Z) (target rhs : ex
       let curr := env_of vs in
       spec_assign curr target (denote curr rhs) shapes inits) stims
   else [0].
+
+(* ================= added after the coverage audit ================= *)
+From V.Model Require Data TbCast.      (* not imported: Data.upd / Data.slice ... must not shadow Stmt's names for RunC02 *)
+
+(* ctx.set(target, v) observed in full: every signal (the target's AND the selectors'), then the rows of the memories
+   that were NOT written (`others`: their initial contents, which must survive), then the data outputs of the comb read
+   ports addressing the written rows of memories owned by the design (`ports`: the written row's index among the signals) *)
+Definition k_tbset_x (inits : list Z) (nall : nat) (target : expr) (v : Z) (stims : list (list Z))
+                     (others : list Z) (ports : list nat) : list Z :=
+  if wf_lhs target then
+    1 :: flat_map (fun vs =>
+      let curr := fun i => if Nat.ltb i (length inits) then init_env inits i else env_of vs i in
+      let nx := tb_set curr target v curr in
+      read_sigs nall nx ++ others ++ map nx ports) stims
+  else [0].
+
+(* ctx.get(e) where some leaves of e are memory rows (no circuit can read those): the testbench evaluator alone *)
+Definition k_read (e : expr) (stims : list (list Z)) : list Z :=
+  if wf_expr e then
+    let s := shape_of e in
+    1 :: width s :: b2l (sgn s) :: flat_map (fun vs => [eval_tb (env_of vs) e; denote (env_of vs) e]) stims
+  else [0; build_err e].
+
+(* shape-castable signals: exception classes as in Data.v (1 KeyError, 2 IndexError, 3 ValueError, 4 TypeError) *)
+Definition resz2l (r : Data.resz) : list Z := match r with Data.Okz v => [1; v] | Data.Errz c => [0; c] end.
+(* sig = Signal(layout): ctx.set(sig, init) -> [1; ctx.get(sig).as_bits() as [1; bits]; ctx.get(sig.as_value())] or [0; class];
+   then ctx.set(sig.as_value(), raw); ctx.get(sig).as_bits() *)
+Definition k_sc_layout (l : Data.layout) (i : Data.init) (raw : Z) : list Z :=
+  (match TbCast.tb_set_layout l i with
+   | Data.Okz st => 1 :: resz2l (Data.as_bits (TbCast.tb_get_layout l st)) ++ [st]
+   | Data.Errz c => [0; c]
+   end) ++ resz2l (Data.as_bits (TbCast.tb_get_layout l (TbCast.sig_store (TbCast.layout_sig_shape l) raw))).
+(* sig = Signal(E), E a shaped lib.enum.Enum: ctx.set(sig, i) -> [1; raw value; ctx.get(sig) as [1; member value]] or [0; class];
+   then ctx.set(sig.as_value(), raw); ctx.get(sig) *)
+Definition k_sc_enum (s : shape) (ms : list Z) (i raw : Z) : list Z :=
+  (match TbCast.tb_set_enum s ms i with
+   | Data.Okz st => 1 :: st :: resz2l (TbCast.tb_get_enum ms st)
+   | Data.Errz c => [0; c]
+   end) ++ resz2l (TbCast.tb_get_enum ms (TbCast.sig_store s raw)).
+(* sig = Signal(Offset(w, k)): ctx.set(sig, obj) -> raw value; ctx.get(sig) *)
+Definition k_sc_offset (w k obj : Z) : list Z :=
+  let st := TbCast.tb_set_offset w k obj in [st; TbCast.tb_get_offset k st].
